@@ -14,7 +14,8 @@ import random
 from harness import chain, conv
 from harness.common import NCPU, MachineryError
 
-FIX_FMTS = '{"class", "pydantic", "function", "argparse", "docstring"}'
+FIX_FMTS = ('{"class", "pydantic", "function", "argparse", "docstring", "json_schema", "sqlalchemy", "sqlalchemy_table", '
+            '"docstring_google", "docstring_numpydoc"}')
 
 
 def check(run, replay=None):
@@ -33,7 +34,7 @@ def check(run, replay=None):
     run.tlc("Convert", "MC_Convert_fix_ideal.cfg", constants={"MaxLen": 4, "MaxParams": 2, "FixFmts": FIX_FMTS},
             workers=NCPU, timeout=3000)
     enabled = conv.enabled_constant(run)
-    r = run.tlc("Convert", "MC_Convert_fix_dump.cfg", shards=5, timeout=3000,
+    r = run.tlc("Convert", "MC_Convert_fix_dump.cfg", shards=10, timeout=3000,
                 constants={"MaxLen": 3 if quick else 4, "MaxParams": 2, "Enabled": enabled, "FixFmts": FIX_FMTS})
     cases = [c for c in r.printed if len(c["hist"]) >= 2]
     seen = {d for c in cases for d in c["devs"]}
